@@ -164,6 +164,15 @@ theorem rename_tree_commutes (S : List Nat) (new : α) (n : Node α) :
     visit (Node.renameAt S new n) = renameAt S new (visit n) :=
   visit_renameAt S new n
 
+/-- **`rename_changes_names_only`**: the renamer touches identifier names and nothing else — the
+name-erased tree (tags, locations, children: explicit type arguments, annotations, pattern
+structure, statement kinds) of the renamed tree is that of the original, for every tree and every
+set of renamed locations. Tied generator-independently by the harness: the structural dump of the
+re-parsed renamed module equals the dump of the (formatted) original with the new name put back. -/
+theorem rename_changes_names_only (S : List Nat) (new : α) (n : Node α) :
+    Node.map (fun _ => ()) (Node.renameAt S new n) = Node.map (fun _ => ()) n :=
+  renameAt_erase S new n
+
 /-- …and at member level, parameters included (`mod_def_id` on `AnnotatedId`s,
 `variable_definition.rs:400-450`): type parameters, parameter annotations, return type, parameters,
 body. -/
